@@ -406,8 +406,30 @@ func (x *Gen) Structured(cmd string) Case {
 			}
 		}
 	}
+	if cmd == "authack" {
+		// unsigned (in clear, or encrypted by a key nobody trusts) / signed; payload 0, 1, n bytes
+		pl = g.Bytes(g.Pick(0, 0, 1, 1, 1, 2, 9, 1024))
+		if len(pl) > 0 && g.Chance(1, 2) {
+			pl[0] = byte(g.Intn(2))
+		}
+		pre = []string{"", "", "enc", "trusted", "trusted"}[g.Intn(5)]
+	}
 	if pre != "nover" && cmd != "version" && g.Chance(1, 25) {
 		pre = "nover"
+	}
+	if pre != "nover" && cmd != "authack" && cmd != "xauth" && g.Chance(1, 16) {
+		// the same message through the encrypted channel of a real xauth key exchange (Run stream) -
+		// from a peer whose key is authorised (BCmsg.trusted = true) or from a stranger
+		add := "trusted"
+		if g.Chance(1, 3) {
+			add = "enc"
+		}
+		if pre == "" {
+			pre = add
+		} else {
+			pre += "," + add
+		}
+		x.r.Hit("gen:" + add)
 	}
 	return Case{Cmd: cmd, Pl: H(pl), Pre: pre, Note: "gen"}
 }
@@ -452,7 +474,7 @@ func (x *Gen) freshHeader() []byte {
 
 var Commands = []string{"version", "inv", "getdata", "notfound", "addr", "getblocks", "getheaders", "headers", "tx", "block",
 	"getblocktxn", "cmpctblock", "blocktxn", "feefilter", "sendcmpct", "ping", "pong", "xauth", "getmp", "getmpdone", "getaddr",
-	"sendheaders", "filterload", "foo"}
+	"sendheaders", "filterload", "foo", "authack"}
 
 // Mutate damages a payload.
 func (x *Gen) Mutate(c Case) Case {
